@@ -397,3 +397,13 @@ Definition finalize (t : atarget) (s : astate) : result astate :=
             (map as_name (a_sects s)) (Ok s).
 
 Definition assemble (t : atarget) (evs : list ev) : result astate := do s <- run t evs init; finalize t s.
+
+(* the section in which a name defined by the assembly lies (observation used by Properties/C13.v) *)
+Definition section_of_label (s : astate) (name : nat) : option nat :=
+  match find (fun kv => Nat.eqb (fst kv) name) (a_syms s) with
+  | Some (_, y) => match sy_ref y with
+                   | RBlock b => option_map as_name (find (fun x => existsb (fun k => Nat.eqb (ab_id k) b) (as_blocks x)) (a_sects s))
+                   | _ => None
+                   end
+  | None => None
+  end.
